@@ -132,7 +132,7 @@ def run(ck):
         cases = ck.path("cases-%s.ndjson" % mode)
         kw = {}
         if thorough:
-            n = 15000 if mode == "html" else 2500
+            n = 50000 if mode == "html" else 8000
             kw = dict(simulate=n, depth=6, seed=ck.seed, workers=1)   # every worker would replay the same random behaviours
             consts[mode] = {"MaxLen": 5, "Sample": True, "behaviours": n}
         else:
